@@ -12,7 +12,10 @@ fn w(map: &mut BTreeMap<String, u32>, k: &str, v: u32) {
 pub fn gen_config(profile: &str, rng: &mut Rng, tier: Tier) -> Config {
 	// `deadlinecrash` = `deadlines` plus crashes and restarts of any node
 	let with_crashes = profile == "deadlinecrash";
-	let profile = if with_crashes { "deadlines" } else { profile };
+	// `asynccrash` = `crash` with most nodes persisting asynchronously or through a deferred
+	// ChainMonitor (in-flight writes at every crash)
+	let more_async = profile == "asynccrash";
+	let profile = if with_crashes { "deadlines" } else if more_async { "crash" } else { profile };
 	let mut r = rng.fork("config");
 	let chan_type = *r.pick(&[ChanType::Legacy, ChanType::Anchors, ChanType::ZeroFee]);
 	let n_nodes = match profile {
@@ -45,6 +48,10 @@ pub fn gen_config(profile: &str, rng: &mut Rng, tier: Tier) -> Config {
 			"crash" | "forward" | "payments" | "receive" | "onchain" | "roundtrip" | "chainstyle" | "tamper" | "deadlines" => {
 				nc.async_default = r.chance(1, 4);
 				nc.deferred = r.chance(1, 5);
+				if more_async {
+					nc.async_default = r.chance(2, 3);
+					nc.deferred = r.chance(1, 3);
+				}
 			},
 			"justice" => {
 				nc.async_default = r.chance(1, 8);
